@@ -6,7 +6,8 @@
    5BytesOffset; [ok_osz]).  Histories are lists of Put / Del / Get over keys < 2^64
    ([keys_ok]); [ref_run] is the reference association list, [ref_metric] the reference
    counters.  The model follows the Go tree with repairs (i) span check in
-   CompactMap.Get/Delete and (ii) high offset byte on overflow overwrite applied. *)
+   CompactMap.Get/Delete, (ii) high offset byte on overflow overwrite and (iii) valid-size
+   check in CompactSection.Delete's overflow branch applied. *)
 From Coq Require Import List NArith ZArith Bool.
 From SW Require Import model.NeedleMap proof.EcIndexProofs proof.NeedleMapSearch proof.NeedleMapSec
   proof.NeedleMapCm proof.NeedleMapRefine proof.NeedleMapProofs proof.NeedleMapKinds
@@ -44,25 +45,21 @@ Theorem c05_get_refines : forall batch ops key, keys_ok ops -> key < two64 ->
 Proof. exact lookup_refines. Qed.
 Print Assumptions c05_get_refines.
 
-(* ALL return values (old (offset,size) of Set, removed size of Delete, answer of Get) equal
-   the reference's — this full statement FAILS (known finding 0: a Delete of an
-   already-deleted entry that lives in an overflow list returns a negative size) ... *)
-Theorem c05_results_refine_refuted : exists batch ops, 0 < batch /\ keys_ok ops /\
-  fst (cm_run batch [] ops) <> fst (ref_run [] ops).
-Proof. exact results_refine_refuted. Qed.
-Print Assumptions c05_results_refine_refuted.
-
-(* ... and holds for every history without such a Delete *)
-Theorem c05_results_refine_partial : forall batch ops, keys_ok ops -> trig_redelete batch ops = false ->
+(* FULL: ALL return values (old (offset,size) of Set, removed size of Delete, answer of Get)
+   equal the reference's, for every history (CompactSection.Delete repaired: the size of an
+   overflow entry is returned only when it is valid) *)
+Theorem c05_results_refine : forall batch ops, keys_ok ops ->
   fst (cm_run batch [] ops) = fst (ref_run [] ops).
-Proof. exact results_refine_partial. Qed.
-Print Assumptions c05_results_refine_partial.
+Proof. exact results_refine. Qed.
+Print Assumptions c05_results_refine.
 
-(* the same exception with the real capacity 100000 (140 ascending keys, then key 55) *)
+(* the former exception, evaluated with the real capacity 100000: 140 ascending keys, key 55
+   goes to the overflow list, its first Delete returns 778, its second Delete returns 0 *)
 Theorem c05_redelete_real_batch :
-  keys_ok redelete_real /\ trig_redelete 100000 redelete_real = true /\
-  nth 142 (fst (cm_run 100000 [] redelete_real)) (RGet None) = RDel (-778)%Z /\
-  nth 142 (fst (ref_run [] redelete_real)) (RGet None) = RDel 0%Z.
+  keys_ok redelete_real /\
+  map (fun s => map sk (s_overflow s)) (snd (cm_run 100000 [] redelete_real)) = [[55]] /\
+  nth 141 (fst (cm_run 100000 [] redelete_real)) (RGet None) = RDel 778%Z /\
+  nth 142 (fst (cm_run 100000 [] redelete_real)) (RGet None) = RDel 0%Z.
 Proof. exact redelete_real_witness. Qed.
 Print Assumptions c05_redelete_real_batch.
 
@@ -87,7 +84,7 @@ Print Assumptions c05_counters_running_leveldb.
 
 (* ---- reload of the in-memory map from its .idx (doLoading) ---- *)
 (* the statement: same map (hence same lookups) and same counters.  It FAILS for histories a
-   volume can issue (known finding 1: an empty-size Put) ... *)
+   volume can issue (known finding 0: an empty-size Put) ... *)
 Theorem c05_reload_refuted : exists osz batch ops, ok_osz osz /\
   forallb (op_in_range osz) ops = true /\ disciplined ops = true /\ ~ reload_ok osz batch ops.
 Proof. exact reload_refuted. Qed.
@@ -118,7 +115,7 @@ Proof. exact sorted_file_get. Qed.
 Print Assumptions c05_sorted_file_get.
 
 (* counters recomputed from the .idx (newNeedleMapMetricFromIndexFile): equal to the running
-   counters FAILS (known finding 2: a key written twice) ... *)
+   counters FAILS (known finding 1: a key written twice) ... *)
 Theorem c05_reload_counters_refuted : exists osz ops, ok_osz osz /\
   forallb (op_in_range osz) ops = true /\ disciplined ops = true /\ trig_empty_put ops = false /\
   l_met (ldb_load osz (l_idx (snd (ldb_run osz ldb0 ops)))) <> l_met (snd (ldb_run osz ldb0 ops)).
@@ -145,7 +142,7 @@ Print Assumptions c05_sorted_file_counters_partial.
 (* The two theorems above model the bloom filter of newNeedleMapMetricFromIndexFile as an exact
    set.  With the filter's real answers as an oracle ([metric_from_index_o]) they carry over
    whenever no answer is a false positive; one false positive already turns a file into a
-   deletion (known finding 3). *)
+   deletion (known finding 2). *)
 Theorem c05_bloom_oracle_partial : forall osz idx ans, trig_bloom_fp osz idx ans = false ->
   metric_from_index_o osz idx ans = metric_from_index osz idx.
 Proof. exact bloom_no_false_positive. Qed.
@@ -168,7 +165,6 @@ Definition c05_ex : list op :=
 Example c05_example :
   ok_osz 5 /\ keys_ok c05_ex /\ forallb (op_in_range 5) c05_ex = true /\
   disciplined c05_ex = true /\ trig_empty_put c05_ex = false /\ trig_rewrite c05_ex = false /\
-  trig_redelete 100000 c05_ex = false /\
   length (snd (cm_run 100000 [] c05_ex)) = 3%nat /\
   fst (cm_run 100000 [] c05_ex) =
     [RSet 0 0%Z; RSet 0 0%Z; RSet 0 0%Z; RSet 0 0%Z; RDel 20%Z;
